@@ -120,7 +120,7 @@ theorem next_plain_byte (input : Bytes) (s : Sc) (hI : RestInv input s)
 
 /-- one `Scan` call: the state stays consistent with the input, and the first byte of the token it returns (other
     than EOF) is no line terminator. -/
-theorem scan_first_byte (input : Bytes) (prev : Int) (s : Sc) (t : Token) (pnl : Bool) (s' : Sc)
+theorem scan_first_byte (input : Bytes) (prev : Prev) (s : Sc) (t : Token) (pnl : Bool) (s' : Sc)
     (hI : RestInv input s) (h : scan prev s = .tok t pnl s') :
     RestInv input s' ∧ (0 ≤ t.type → ∃ c, input[t.off]? = some c ∧ c ≠ 10 ∧ c ≠ 13) := by
   fun_induction scan prev s
@@ -151,7 +151,7 @@ theorem scan_first_byte (input : Bytes) (prev : Int) (s : Sc) (t : Token) (pnl :
     rw [toff ht, po]
     simpa using hc1
 
-theorem lexAll_first_byte (input : Bytes) (prev : Int) (s : Sc) (hI : RestInv input s) :
+theorem lexAll_first_byte (input : Bytes) (prev : Prev) (s : Sc) (hI : RestInv input s) :
     ∀ p ∈ (lexAll prev s).toks, 0 ≤ p.1.type → ∃ c, input[p.1.off]? = some c ∧ c ≠ 10 ∧ c ≠ 13 := by
   fun_induction lexAll prev s
   · intro p hp; simp at hp
@@ -172,8 +172,8 @@ theorem lexAll_first_byte (input : Bytes) (prev : Int) (s : Sc) (hI : RestInv in
 theorem lex_line_ends (input : Bytes) :
     ∀ p ∈ (lex input).toks, 0 ≤ p.1.type → p.1.line = 1 + (lineEnds (input.take p.1.off) : Int) := by
   intro p hp hty
-  obtain ⟨c, h1, h2, h3⟩ := lexAll_first_byte input 0 (initSc input) (restInv_init input) p hp hty
-  have hl := lexAll_line input 0 (initSc input) rfl p hp hty
+  obtain ⟨c, h1, h2, h3⟩ := lexAll_first_byte input {} (initSc input) (restInv_init input) p hp hty
+  have hl := lexAll_line input {} (initSc input) rfl p hp hty
   rw [lineMap_lineEnds 1 input p.1.off c h1 h2 h3] at hl
   simp only [Option.some.injEq] at hl
   exact hl.symm
